@@ -29,6 +29,15 @@ func init() {
 	})
 }
 
+type c14Kept struct {
+	rec  *gffRecord
+	got  poly.Sequence
+	text []byte
+	copy string
+}
+
+var c14Earlier []c14Kept
+
 type gffFeature struct {
 	Seqid, Source, Type, Score, Strand, Phase string
 	Start, End                                int // 1-based inclusive (file convention)
@@ -327,6 +336,17 @@ func runC14(w *mon.W) {
 		} else {
 			w.Add("write_then_read", 1)
 			c14CheckParsed(w, id, "gff.Parse(gff.Build(x))", rec, y, rep)
+			for _, e := range c14Earlier {
+				w.Add("earlier_results_rechecked", 1)
+				c14CheckParsed(w, id, "a result of an earlier gff.Parse call, inspected again after later calls", e.rec, e.got, nil)
+				if string(e.text) != e.copy {
+					w.Violation(id, "the text returned by an earlier gff.Build call changed after later calls", nil)
+				}
+			}
+			if len(c14Earlier) >= 2 {
+				c14Earlier = c14Earlier[1:]
+			}
+			c14Earlier = append(c14Earlier, c14Kept{rec, y, text, string(text)})
 		}
 		if own, err := readGFF(string(text)); err != nil {
 			w.Violation(id, fmt.Sprintf("the harness's GFF3 reader cannot read gff.Build's output: %v", err), rep)
